@@ -28,7 +28,7 @@ ASSUMPTIONS = [
     'the statement does not say which side an edge point belongs to; empty target bins are not judged',
     'tuple layout returned by bindown is (grid, values, error, widths) as every binner in the tree returns it',
 ]
-REQUIRED = {'native:explicit': 0.1, 'perm-native': 0.3, 'perm-target': 0.2, 'two-d': 0.15,
+REQUIRED = {'input-form:integer': 0.1, 'input-form:float32': 0.05, 'native:explicit': 0.1, 'perm-native': 0.3, 'perm-target': 0.2, 'two-d': 0.15,
             'errors': 0.15, 'target:partly-outside': 0.05, 'target:wholly-outside': 0.03}
 # coverage-guided extra (thorough tier): pure-Python taurex modules on this property's path, instrumented by atheris
 FUZZ = {'include': ['taurex.binning', 'taurex.util.util'], 'runs': 40000, 'workers': 4}
@@ -66,6 +66,8 @@ def _case(draw):
         'perm_n': draw(S.perm(list(range(n)))),
         'perm_t': draw(S.perm(list(range(nt)))),
         'ab': [draw(fl(-5, 5)), draw(fl(-5, 5))], 'regrid': draw(fl(0.3, 3.0)), 'const': draw(fl(-1e6, 1e6)),
+        # the form in which the (numerically identical) spectrum and errors arrive
+        'form': draw(S.pick(['float64', 'int64', 'float64', 'float32', 'readonly', 'strided', 'float64', 'int32'])),
     }
 
 
@@ -198,21 +200,45 @@ def check(case):
     err = np.array(case['err'], dtype=float) if (case['err'] is not None and not case['two_d']) else None
     if err is not None:
         out.cls('errors')
+    form = case.get('form', 'float64')
+    if form != 'float64':
+        out.cls('input-form:' + ('integer' if form.startswith('int') else form))
+    if form.startswith('int'):
+        spec = np.round(spec)                    # whole numbers, handed over as an integer array below
+        err = np.ceil(err) if err is not None else None
+    elif form == 'float32':
+        spec = spec.astype(np.float32).astype(float)
+        err = err.astype(np.float32).astype(float) if err is not None else None
     fmax = max(float(np.max(np.abs(spec))), 1e-300)
+
+    def as_given(a):
+        """the same numbers in the drawn form"""
+        if a is None:
+            return None
+        if form.startswith('int') or form == 'float32':
+            return a.astype({'int64': np.int64, 'int32': np.int32, 'float32': np.float32}[form])
+        if form == 'readonly':
+            a = a.copy()
+            a.setflags(write=False)
+            return a
+        if form == 'strided':
+            return np.repeat(a, 2, axis=-1)[..., ::2]
+        return a
 
     def make_binner():
         wa = tw[pt] if twidth_arg == 'array' else twidth_arg
         return FluxBinner(tc[pt].copy(), wa.copy() if isinstance(wa, np.ndarray) else wa)
 
-    def run(b, f, e=None, permute=True):
+    def run(b, f, e=None, permute=True, given=False):
         p = pn if permute else np.arange(n)
         gw = (w[p].copy() if pass_w else None)
-        return b.bindown(wn[p].copy(), f[..., p].copy(), grid_width=gw,
-                         error=(e[p].copy() if e is not None else None))
+        conv = as_given if given else (lambda a: a)
+        return b.bindown(wn[p].copy(), conv(f[..., p].copy()), grid_width=gw,
+                         error=(conv(e[p].copy()) if e is not None else None))
 
     try:
         fb = cut(out, 'flux-construct', make_binner)
-        res = cut(out, 'flux-bindown', run, fb, spec, err)
+        res = cut(out, 'flux-bindown', run, fb, spec, err, True, True)
     except CutError:
         return out
     order = np.argsort(tc)
@@ -231,6 +257,8 @@ def check(case):
     any_nt = False
     n_out_part = n_out_whole = 0
     atol = 1e-13 * fmax
+    # single-precision input carries single-precision arithmetic into the squares of the errors: judged to 1e-6
+    rt_form = 1e-6 if form == 'float32' else 1e-10
     for i in range(nt):
         lo, hi = stc[i] - stw[i] / 2, stc[i] + stw[i] / 2
         if hi < span_lo or lo > span_hi:
@@ -242,7 +270,7 @@ def check(case):
             continue
         out.applies('flux-value')
         g = got[..., i]
-        if not close(g, val, rtol=1e-10, atol=atol):
+        if not close(g, val, rtol=rt_form, atol=atol):
             out.fail('flux-value@%s,%s' % ('widths' if pass_w else 'nowidths',
                                           'perm' if not np.array_equal(pn, np.arange(n)) else 'sorted'),
                      'bin %d [%.6g,%.6g] got %s want %s' % (i, lo, hi, g, val))
@@ -254,7 +282,7 @@ def check(case):
         if err is not None:
             out.applies('flux-error')
             ge = np.asarray(res[2], dtype=float)
-            if ge.shape != (nt,) or not close(ge[i], e_ref, rtol=1e-10):
+            if ge.shape != (nt,) or not close(ge[i], e_ref, rtol=rt_form):
                 out.fail('flux-error', 'bin %d got %s want %s' % (i, ge[i] if ge.shape == (nt,) else ge.shape, e_ref))
         if len(idx) >= 2 and partial and np.ptp(sub) > 1e-9 * fmax:
             any_nt = True
@@ -272,7 +300,7 @@ def check(case):
             out.applies('flux-order')
             wa = tw[order] if twidth_arg == 'array' else twidth_arg
             fb2 = FluxBinner(stc.copy(), wa)
-            res2 = cut(out, 'flux-bindown', run, fb2, spec, err, False)
+            res2 = cut(out, 'flux-bindown', run, fb2, spec, err, False, True)
             if not close(np.asarray(res2[1])[..., judged], got[..., judged], rtol=1e-12, atol=atol):
                 out.fail('flux-order@%s' % ('widths' if pass_w else 'nowidths'),
                          'permuted %s sorted %s' % (got[..., judged], np.asarray(res2[1])[..., judged]))
